@@ -334,11 +334,13 @@ func histPrograms(tier string) []hprog {
 	p := histCatalogue()
 	// programs whose run ops are also explored under every iteration order of spok's own maps
 	// (quick: two-task programs where the tasks share patterns or one task's commands change what the
-	// other's patterns match; thorough: every catalogue program with at least two tasks)
+	// other's patterns match; thorough: every catalogue program with exactly two tasks)
 	quickOrd := map[string]bool{"P11-rewrites-shared-input": true, "P13-shared-glob-own-files": true, "P14-generates-glob-match": true,
 		"P28-generator-keeps-directory-time": true}
 	for i := range p {
-		if dagControlled && len(p[i].Tasks) >= 2 && (quickOrd[p[i].Name] || tier == "thorough") {
+		// (three-task programs multiply the invocations by about ten and would run into the worker
+		// budget of the thorough tier, which would turn completed programs into capped ones)
+		if dagControlled && len(p[i].Tasks) >= 2 && (quickOrd[p[i].Name] || (tier == "thorough" && len(p[i].Tasks) == 2)) {
 			p[i].FileOrd = true
 		}
 	}
